@@ -47,9 +47,18 @@ def make_case(args):
     else:
         return None
     dtype = rng.choice(["float64", "float64", "float32"])
+    mode = rng.choice(["scale", "rotate", "scaleby"])
+    if mode == "scaleby" and rng.random() < 0.35:
+        # valid spectrum without an interior peak: tp/dpm are NaN, so a tp/dpm range is never met
+        E = np.array([[(nf - i) * (1 + (j % 3)) for j in range(nd)] for i in range(nf)], dtype=float)
+        kind = "monodown"
+    # physical magnitude: Hs between 0.5 and 8 m (power-of-two factor keeps the exact stream exact)
+    dfv = np.gradient(freq) if nf > 1 else np.array([1.0])
+    m0 = float((E.sum(axis=1) * dfv).sum() * gen.bin_width(dirs))
+    target = rng.uniform(0.5, 8.0)
+    E = E * 2.0 ** round(math.log2((target / 4) ** 2 / m0))
     da = gen.make_da(freq, dirs, E, dtype=dtype)
     depth = rng.choice([None, None, 15.0])
-    mode = rng.choice(["scale", "rotate", "scaleby"])
     rec = dict(icase=icase, mode=mode, freq=freq, dirs=dirs, E=np.asarray(da.values, dtype=float), dtype=dtype, kind=kind, order=order,
                fkind=fkind, depth=depth)
     try:
@@ -74,12 +83,14 @@ def make_case(args):
                 kw["hs_min"] = hs0 * rng.choice([0.5, 0.9, 1.1])
                 if rng.random() < 0.5:
                     kw["hs_max"] = hs0 * rng.choice([0.95, 1.5])
-            if rng.random() < 0.4 and not math.isnan(tp0):
-                kw["tp_min"] = tp0 * rng.choice([0.5, 1.2])
-                kw["tp_max"] = tp0 * rng.choice([1.5, 3.0])
-            if rng.random() < 0.4 and not math.isnan(dpm0):
-                kw["dpm_min"] = rng.choice([0.0, dpm0 - 10, dpm0 + 10])
-                kw["dpm_max"] = rng.choice([360.0, dpm0 + 20])
+            if rng.random() < 0.4 or (math.isnan(tp0) and rng.random() < 0.7):
+                t0 = 8.0 if math.isnan(tp0) else tp0
+                kw["tp_min"] = t0 * rng.choice([0.5, 1.2])
+                kw["tp_max"] = t0 * rng.choice([1.5, 3.0])
+            if rng.random() < 0.4:
+                d0 = 180.0 if math.isnan(dpm0) else dpm0
+                kw["dpm_min"] = rng.choice([0.0, d0 - 10, d0 + 10])
+                kw["dpm_max"] = rng.choice([360.0, d0 + 20])
             rec["expr"], rec["kw"] = expr, kw
             out = da.spec.scale_by_hs(expr, **kw)
             out = out.compute() if hasattr(out, "compute") else out
